@@ -46,7 +46,7 @@ func checkC17(w *Worker) {
 	inputs := c17Inputs()
 	baseCache := map[string]AppRun{}
 	offsets := func(n int) []int {
-		if n <= 700 {
+		if n <= 700 || w.Tier == "thorough" {
 			out := make([]int, n)
 			for i := range out {
 				out[i] = i
